@@ -26,6 +26,7 @@ HARNESS = {
     "verif_cmd": (["verif_cmd.cc"], False, ""),
     "argv": (["argv.cc"], False, ""),
     "logh": (["logh.cc"], True, ""),
+    "c13": (["c13.cc"], True, ""),
 }
 
 
